@@ -18,7 +18,7 @@ RULE = ("every Command subclass with every constructor/attribute value in its do
         "GetCapabilities x 2 pages, ToggleDisplay x beep, energy, humidity, GetProperties over all 4096 subsets of the 12 "
         "property ids in several orders, SetProperties over every non-empty subset of the 9 encodable ids with generated "
         "values, SetState over C10's domain), one run of 70 000 (quick) / 200 000 (thorough) commands in a single process, sequences of 300..700 mixed commands (constructed one by one or all constructed before the first is emitted), and every public AirConditioner operation "
-        "against the model device under generated capability profiles, optionally with some commands left unanswered (the ids seen on the wire must still chain). Oracle: strict independent frame parser (0xAA, length "
+        "against the model device under generated capability profiles, optionally with some commands left unanswered (the ids seen on the wire must still chain), or with two devices of the same process operated concurrently (the commands of both, in wire order, must chain). Command objects may also be constructed first and emitted in any order, and the same object more than once (every emission is a command). Oracle: strict independent frame parser (0xAA, length "
         "byte == len-1, appliance 0xAC, frame type 0x02 for the two write commands else 0x03, body = [documented command id ... "
         "message id, bitwise CRC-8], two's complement checksum), the model's conformance parser accepts the body, message ids "
         "advance by one modulo 256. Non-trivial: variable-length property commands, a sequence that wraps the id, or a device "
@@ -31,6 +31,10 @@ ENC_PIDS = [0x0009, 0x000A, 0x0018, 0x001A, 0x0039, 0x0042, 0x0043, 0x0048, 0x00
 EXPECT_ID = {"get_state": 0x41, "get_caps": 0xB5, "toggle": 0x41, "energy": 0x41, "humidity": 0x41, "get_props": 0xB1,
              "set_props": 0xB0, "set_state": 0x40}
 EXPECT_TYPE = {"set_props": 0x02, "set_state": 0x02}
+
+
+TWIN_STATE = {"power": True, "mode": 4, "target": 21.5, "fan": 60, "swing": 0xC, "eco": True, "turbo": False, "sleep": True, "fahrenheit": False,
+              "freeze": False, "follow_me": True, "purifier": False, "humidity": 55, "aux": 1, "beep": True}
 
 
 def build(spec: dict):
@@ -137,8 +141,12 @@ def check_case(case: dict):
     specs = case["specs"]
     prev_id = None
     # "construct all, then emit" (what refresh() does with its command list) or "construct and emit one by one"
-    prebuilt = [build(spec) for spec in specs] if case.get("prebuild") else None
-    for idx, spec in enumerate(specs):
+    prebuilt = [build(spec) for spec in specs] if (case.get("prebuild") or case.get("emit")) else None
+    # emission order: by default each command once in construction order; "emit" lists indices into the prebuilt
+    # commands (any order, a command object may be emitted more than once)
+    order = [i % len(specs) for i in case["emit"]] if case.get("emit") else range(len(specs))
+    for idx in order:
+        spec = specs[idx]
         cmd = prebuilt[idx] if prebuilt is not None else build(spec)
         try:
             frame = cmd.tobytes()
@@ -192,37 +200,67 @@ def check_device(case: dict):
         dev.on_data = on_data
         net.listen("10.0.0.9", 6444, dev)
         ac = AC(ip="10.0.0.9", port=6444, device_id=3)
-        for op in case["ops"]:
-            if op == "refresh":
-                await ac.refresh()
-            elif op == "caps":
-                await ac.get_capabilities()
-            elif op == "apply":
-                await ac.apply()
-            elif op == "toggle":
-                await ac.toggle_display()
-            elif op == "clean":
-                await ac.start_self_clean()
-            elif op == "set":
-                acutil.set_attrs(ac, case["state"])
-                if ac.supports_vertical_swing_angle:
-                    ac.vertical_swing_angle = AC.SwingAngle.POS_3
-                if ac.supports_horizontal_swing_angle:
-                    ac.horizontal_swing_angle = AC.SwingAngle.POS_5
-                if ac.supports_breezeless:
-                    ac.breezeless = True
-                if ac.supports_ieco:
-                    ac.ieco = True
-                if 0x0048 in prof.get("props", []):
-                    ac.rate_select = AC.RateSelect.GEAR_50
+        wire: list = []
+        if case.get("twin"):
+            # two devices of the same process operated concurrently: the commands of both, in the order they reach the
+            # wire, still carry consecutive ids (connections are established first, so nothing separates emission and write)
+            import asyncio, copy
+            m2 = M.ModelAC()
+            m2.cap_pages, m2.props = copy.deepcopy(m.cap_pages), dict(m.props)
+            dev2 = SimDevice(loop, version=2, device_id=4, ac=m2, latency=0.05 * case["twin"])
+            net.listen("10.0.0.10", 6444, dev2)
+            ac2 = AC(ip="10.0.0.10", port=6444, device_id=4)
+            await ac.get_capabilities()
+            await ac2.get_capabilities()
+            res["m2"] = m2
+
+            def tap(dev_, conn, frame):
+                wire.append(frame)
+                return None
+            dev.on_data = tap
+            dev2.on_data = tap
+
+
+        async def run_ops(ac):
+            for op in case["ops"]:
+                if op == "refresh":
+                    await ac.refresh()
+                elif op == "caps":
+                    await ac.get_capabilities()
+                elif op == "apply":
+                    await ac.apply()
+                elif op == "toggle":
+                    await ac.toggle_display()
+                elif op == "clean":
+                    await ac.start_self_clean()
+                elif op == "set":
+                    acutil.set_attrs(ac, case["state"])
+                    if ac.supports_vertical_swing_angle:
+                        ac.vertical_swing_angle = AC.SwingAngle.POS_3
+                    if ac.supports_horizontal_swing_angle:
+                        ac.horizontal_swing_angle = AC.SwingAngle.POS_5
+                    if ac.supports_breezeless:
+                        ac.breezeless = True
+                    if ac.supports_ieco:
+                        ac.ieco = True
+                    if 0x0048 in prof.get("props", []):
+                        ac.rate_select = AC.RateSelect.GEAR_50
+
+        if case.get("twin"):
+            await asyncio.gather(run_ops(ac), run_ops(ac2))
+            ac2._lan._disconnect()
+            res["tx"] = list(wire)
+        else:
+            await run_ops(ac)
+            res["tx"] = [t[2] for t in dev.transmissions]
         res["m"] = m
-        res["tx"] = [t[2] for t in dev.transmissions]
         ac._lan._disconnect()
 
     vloop.run(main, net)
     m = res["m"]
-    if m.rejected:
-        return ("device-rejects", f"model device rejected a frame during {case['ops']}: {m.rejected[0][1]}")
+    if m.rejected or (res.get("m2") is not None and res["m2"].rejected):
+        rej = m.rejected or res["m2"].rejected
+        return ("device-rejects", f"model device rejected a frame during {case['ops']}: {rej[0][1]}")
     # ids on the wire, one per distinct command (retransmissions of an unanswered command repeat the same frame)
     ids = []
     last = None
@@ -336,8 +374,31 @@ def run(ctx) -> None:
         length = r.randint(300, 700)
         specs = [r.choice(singles[:9] + singles[9:400:7] + singles[-40::9]) for _ in range(length)]
         case = {"specs": specs, "prebuild": i % 2 == 1}
+        if i % 3 == 2:
+            # the commands are constructed first and emitted in another order, some of them more than once
+            em = list(range(length)) + [r.randrange(length) for _ in range(length // 4)]
+            r.shuffle(em)
+            case = {"specs": specs[:120], "emit": em}
         ctx.check(case, lambda c: _run_one(ctx, c))
     ctx.sweep("id-wrapping sequences", nseq, True)
+    # every command kind emitted three times from the same object, and in reverse construction order
+    base = singles[:9] + singles[-3:]
+    for j, em in enumerate(([i for i in range(len(base)) for _ in range(3)], list(range(len(base) - 1, -1, -1)), [0] * 300)):
+        if ctx.mine(j):
+            case = {"specs": base, "emit": em}
+            ctx.check(case, lambda c: _run_one(ctx, c))
+    # two devices operated concurrently, every capability profile family
+    t = 0
+    for energy in (False, True):
+        for humidity in (False, True):
+            for props in ([], [0x0009, 0x00E3], [0x0009, 0x000A, 0x0039, 0x0048, 0x0043, 0x00E3]):
+                for twin in (1, 1.7):
+                    t += 1
+                    if ctx.mine(t):
+                        case = {"op": "device", "profile": {"energy": energy, "humidity": humidity, "props": props, "split": 0}, "state": dict(TWIN_STATE),
+                                "ops": ["refresh", "set", "apply", "refresh", "toggle", "refresh"], "twin": twin}
+                        ctx.check(case, lambda c: _run_one(ctx, c))
+    ctx.sweep("two devices concurrently x capability profiles", t, True)
 
     # set-state frames over C10's domain + device operations
     spec_state = gens.settable_states().flatmap(lambda s: st.tuples(st.integers(0, 127), st.integers(0, 127)).map(lambda fh: dict(s, fan=fh[0], humidity=fh[1])))
@@ -345,7 +406,9 @@ def run(ctx) -> None:
         spec_state.map(lambda s: {"specs": [{"k": "set_state", "state": s}]}),
         st.lists(st.one_of(spec_state.map(lambda s: {"k": "set_state", "state": s}), st.sampled_from(singles[:9]),
                            st.lists(st.sampled_from(ALL_PIDS), unique=True, max_size=12).map(lambda ids: {"k": "get_props", "ids": ids})),
-                 min_size=2, max_size=12).flatmap(lambda sp: st.booleans().map(lambda pb: {"specs": sp, "prebuild": pb})))
+                 min_size=2, max_size=12).flatmap(lambda sp: st.one_of(
+                     st.booleans().map(lambda pb: {"specs": sp, "prebuild": pb}),
+                     st.lists(st.integers(0, len(sp) - 1), min_size=2, max_size=3 * len(sp)).map(lambda em: {"specs": sp, "emit": em}))))
     ctx.hyp("set_state+short sequences", cases, lambda c: _run_one(ctx, c), ctx.n(3000, 320000))
 
     profile = st.fixed_dictionaries({"energy": st.booleans(), "humidity": st.booleans(),
@@ -353,5 +416,6 @@ def run(ctx) -> None:
                                      "split": st.integers(0, 3)})
     dev_cases = st.fixed_dictionaries({"op": st.just("device"), "profile": profile, "state": gens.settable_states(),
                                        "ops": st.lists(st.sampled_from(["refresh", "caps", "apply", "toggle", "clean", "set"]), min_size=1, max_size=8)},
-                                      optional={"unanswered": st.lists(st.integers(0, 12), max_size=3, unique=True)})
+                                      optional={"unanswered": st.lists(st.integers(0, 12), max_size=3, unique=True), "twin": st.sampled_from([0, 0, 1, 1.7, 0.4])}).map(
+        lambda c: {k: v for k, v in c.items() if not (k == "unanswered" and c.get("twin"))})
     ctx.hyp("device-ops", dev_cases, lambda c: _run_one(ctx, c), ctx.n(1600, 64000))
